@@ -13,6 +13,9 @@ THEOREMS = [
     # per-statement linearization for the restricted fragment
     "SC.insert_commit_exact", "SC.frame_other_steps", "SC.kstep_stable", "SC.reader_sees_start_snapshot",
     "SC.serializable_partial",
+    # whole-run serializability of INSERT / SELECT / CREATE: manifest order is a serial order
+    "SC.commitA_fields", "SC.rstep_kstep", "SC.serinv_init", "SC.serinv_rstep", "SC.astep_rstep",
+    "SC.serializable_run", "SC.serializable_restricted", "SC.select_serial", "SC.dvinv_reachable",
     # no panic in the restricted fragment (changeset shapes it produces)
     "SC.applyOps_insert_some", "SC.applyOps_dels_some", "SC.applyOps_compaction_some", "SC.no_panic_partial",
     # refutations of the unrestricted statements, by evaluation of schedules taken from the
